@@ -75,6 +75,7 @@ Theorem C13_search_result_unfold : forall sps ws,
   search_result sps ws =
   filter (fun p => forallb (fun sp => spec_matchesb sp (fst p)) sps) (number 0 ws).
 Proof. reflexivity. Qed.
+Print Assumptions C13_search_result_unfold.
 
 Theorem C13_spec_matchesb : forall sp w, spec_matchesb sp w = true <-> spec_matches sp w.
 Proof. exact spec_matchesb_iff. Qed.
@@ -104,7 +105,9 @@ Example C13_built_wellformed_nonvacuous :
   increasing ex_words /\ new_dawg ex_words = Ok (Some ex_store) /\ trie_of ex_words = ex_tree /\
   trie_of [] = Node false 0 [] /\ trie_of [[]] = Node true 1 [].
 Proof.
-  split; [vm_compute; repeat split|]. repeat split; vm_compute; reflexivity.
+  split; [vm_compute; repeat split|].
+  split; [vm_compute; reflexivity|]. split; [vm_compute; reflexivity|].
+  split; vm_compute; reflexivity.
 Qed.
 
 (* pattern "t???" and anagram "spo?" together: "tops", rank 8; pattern "?" alone: a, b with
@@ -121,8 +124,10 @@ Example C13_search_new_nonvacuous :
     new_searchers [SpecA [115; 112; 111; 63] 63; SpecP [116; 63; 63; 63] 63]%N = Ok xs /\
     search_c 41 ex_store root xs = Ok ([([116; 111; 112; 115]%N, 8%Z)], xs1).
 Proof.
-  repeat (split; [vm_compute; reflexivity|]).
-  eexists. eexists. split; vm_compute; reflexivity.
+  split; [vm_compute; reflexivity|]. split; [vm_compute; reflexivity|].
+  split; [vm_compute; reflexivity|]. split; [vm_compute; reflexivity|].
+  split; [vm_compute; reflexivity|].
+  eexists. eexists. split; [vm_compute; reflexivity|]. vm_compute. reflexivity.
 Qed.
 
 (* the zero-value Builder with the Adds "b", "a" (rejected), "b" (rejected), "ba", "" (rejected):
@@ -137,5 +142,6 @@ Example C13_search_builder_nonvacuous :
     search_c 7 s root xs = Ok ([([98; 97]%N, 1%Z)], xs1).
 Proof.
   split; [left; reflexivity|]. split; [vm_compute; reflexivity|].
-  do 4 eexists. repeat split; vm_compute; reflexivity.
+  do 4 eexists. split; [vm_compute; reflexivity|]. split; [vm_compute; reflexivity|].
+  split; [vm_compute; reflexivity|]. vm_compute. reflexivity.
 Qed.
